@@ -71,3 +71,14 @@ print("   mjw     ", sorted((int(e[1]), round(float(x), 4)) for e, x in zip(d.co
 print("D10 contacts of elements that contain a world-pinned vertex with static geoms (MuJoCo filters them)")
 mjm, mjd, m, d = both('<mujoco><worldbody><geom type="cylinder" size="0.056939 0.067415" pos="-0.063972 -0.07302 0.24841" quat="-0.31045 0.85226 0.34642 0.2393"/><flexcomp name="F" type="grid" dim="3" count="2 2 2" spacing="0.0933 0.0933 0.0933" radius="0.01043" mass="0.871" pos="0 0 0.287" quat="0.18174 -0.27716 0.74677 -0.57662"><contact selfcollide="none"/><pin id="3"/></flexcomp></worldbody></mujoco>', pert=0.0, vel=0.0)
 print("   MuJoCo flex contacts %d | mjw %d" % (mjd.ncon, int(d.nacon.numpy()[0])))
+
+print("D11 capsule_triangle (flex element vs capsule): only the two end spheres and the triangle VERTICES against the axis are tested - a capsule crossing a triangle away from its vertices is missed")
+mjm, mjd, m, d = both('<mujoco><worldbody><geom type="capsule" size=".03 .3" pos="0.05 0.02 1.03" euler="0 85 20"/><flexcomp name="F" type="grid" dim="2" count="3 3 1" spacing=".2 .2 .2" radius=".01" mass="1" pos="0 0 1"><contact selfcollide="none"/></flexcomp></worldbody></mujoco>', pert=0.0, vel=0.0)
+V = mjd.flexvert_xpos; el = mjm.flex_elem.reshape(-1, 3); R = mjd.geom_xmat[0].reshape(3, 3)
+def cap_dist(e):
+  a, b, c = V[el[e]]; loc = (a + uu[:, None] * (b - a) + vv[:, None] * (c - a) - mjd.geom_xpos[0]) @ R; z = np.clip(loc[:, 2], -.3, .3)
+  return float(np.sqrt(loc[:, 0] ** 2 + loc[:, 1] ** 2 + (loc[:, 2] - z) ** 2).min()) - .03 - .01
+n = int(d.nacon.numpy()[0])
+print("   sampled ", {e: round(cap_dist(e), 4) for e in range(len(el))})
+print("   MuJoCo  ", sorted((int(c.elem[1]), round(c.dist, 4)) for c in mjd.contact[:mjd.ncon]))
+print("   mjw     ", sorted((int(e[1]), round(float(x), 4)) for e, x in zip(d.contact.elem.numpy()[:n], d.contact.dist.numpy()[:n])))
